@@ -34,10 +34,15 @@ def inputs_only(block):
 
 
 def norm_msg(msg):
+    """key of a monitor failure: the diagnosis tag and the core message; run names, sides, numbers
+    and the details after ' | ' are abstracted away"""
     msg = re.sub(r"^run [a-z0-9]+: ", "", msg)
+    msg = msg.split(" | ")[0]
+    msg = re.sub(r"\b(client|server)\b", "SIDE", msg)
     msg = re.sub(r"runs [a-z0-9]+ and [a-z0-9]+", "runs A and B", msg)
     msg = re.sub(r"run [a-z0-9]+", "run R", msg)
-    return re.sub(r"-?\d+", "N", msg)
+    m = re.match(r"^(\[[^\]]*\] )?(.*)$", msg)
+    return (m.group(1) or "") + re.sub(r"-?\d+", "N", m.group(2))
 
 
 def run_sim(pid, tier, seed, replay, ctx, gens, mech):
